@@ -459,7 +459,7 @@ Proof.
   unfold mut_hop. intros H. split_id H;
     first [ eapply wr_length; eassumption | (inversion H; reflexivity) | idtac ].
   inv_bind H. inversion H; subst. apply get_unchecked_some in E. destruct E as (_ & _ & E).
-  apply splice_length. rewrite be_bytes_length. unfold blen in E.
+  apply splice_length. cbn [length]. unfold blen in E.
   change (byte_hi HopField_MAC_RNG) with 12 in E. change (N.to_nat (byte_lo HopField_MAC_RNG)) with 6%nat. lia.
 Qed.
 
@@ -493,4 +493,82 @@ Proof.
     try solve [inversion H; reflexivity];
     (eapply in_sub_length; [|eassumption]); intros x y Hxy;
     first [eapply mut_stdpath_length; eassumption | eapply mut_onehop_length; eassumption].
+Qed.
+
+Lemma index_range_some v lo hi x : index_range v lo hi = Ok x -> lo <= hi /\ hi <= blen v.
+Proof.
+  unfold index_range. destruct ((lo <=? hi) && (hi <=? blen v)) eqn:C; [|discriminate].
+  intros _. apply Bool.andb_true_iff in C. destruct C as [A B]. apply N.leb_le in A. apply N.leb_le in B. auto.
+Qed.
+
+Lemma udp_payload_range_bound v r : udp_payload_range v = Ok r -> snd r <= blen v.
+Proof. unfold udp_payload_range. intros H. inv_bind H. inversion H; subst. cbn [snd]. lia. Qed.
+Lemma scmp_tail_range_bound ty v r : scmp_tail_range ty v = Ok r -> snd r <= blen v.
+Proof. unfold scmp_tail_range. intros H. inv_bind H. inversion H; subst. cbn [snd]. apply index_range_some in E. lia. Qed.
+Lemma pkt_payload_range_bound v r : pkt_payload_range v = Ok r -> snd r <= blen v.
+Proof.
+  unfold pkt_payload_range. intros H. inv_bind H. inversion H; subst. cbn [snd].
+  match goal with E : get_unchecked v _ (_ + _) = Ok _ |- _ => apply get_unchecked_some in E; lia end.
+Qed.
+
+Lemma mut_udp_length id arg val v v' : mut_udp id arg val v = Ok v' -> length v' = length v.
+Proof.
+  unfold mut_udp. intros H. split_id H;
+    try solve [eapply wr_length; eassumption]; try solve [inversion H; reflexivity].
+  inv_bind H. eapply poke_length; [|eassumption]. eapply udp_payload_range_bound; eassumption.
+Qed.
+
+Lemma mut_scmp_msg_length ty id arg val v v' : mut_scmp_msg ty id arg val v = Ok v' -> length v' = length v.
+Proof.
+  unfold mut_scmp_msg. intros H. split_id H;
+    try solve [eapply wr_length; eassumption]; try solve [inversion H; reflexivity].
+  all: try solve [destruct (scmp_fixed_size ty); [inversion H; reflexivity|];
+                  inv_bind H; eapply poke_length; [|eassumption]; eapply scmp_tail_range_bound; eassumption].
+  all: match type of H with match ?o with _ => _ end = _ => destruct o as [[r bits]|] end;
+       [eapply wr_length; eassumption|inversion H; reflexivity].
+Qed.
+
+Lemma mut_scmp_length id arg val v v' : mut_scmp id arg val v = Ok v' -> length v' = length v.
+Proof.
+  unfold mut_scmp. intros H. split_id H;
+    try solve [eapply wr_length; eassumption]; try solve [inversion H; reflexivity].
+  all: repeat match type of H with (if ?c then _ else _) = _ => destruct c end; try solve [inversion H; reflexivity].
+  all: inv_bind H; eapply mut_scmp_msg_length; eassumption.
+Qed.
+
+Lemma mut_pkt_length k id arg val v v' : mut_pkt k id arg val v = Ok v' -> length v' = length v.
+Proof.
+  unfold mut_pkt. intros H. split_id H.
+  all: repeat match type of H with (if ?c then _ else _) = _ => destruct c end; try solve [inversion H; reflexivity].
+  all: try solve [inv_bind H; eapply poke_length; [|eassumption]; eapply pkt_payload_range_bound; eassumption].
+  all: inv_bind H; (eapply in_sub_length; [|eassumption]); intros x y Hxy; eapply mut_header_length; eassumption.
+Qed.
+
+Lemma run_mut_length k id arg val v v' : run_mut k id arg val v = Ok v' -> length v' = length v.
+Proof.
+  destruct k; cbn [run_mut]; intros H.
+  - eapply mut_header_length; eauto.
+  - eapply mut_stdpath_length; eauto.
+  - eapply mut_onehop_length; eauto.
+  - eapply mut_info_length; eauto.
+  - eapply mut_hop_length; eauto.
+  - eapply mut_pkt_length; eauto.
+  - eapply mut_pkt_length; eauto.
+  - eapply mut_pkt_length; eauto.
+  - eapply mut_udp_length; eauto.
+  - eapply mut_scmp_length; eauto.
+  - eapply mut_scmp_msg_length; eauto.
+Qed.
+
+(** arbitrary sequences of safe mutators *)
+Fixpoint run_muts (k : vkind) (ms : list (N * N * N)) (v : bytes) : res bytes :=
+  match ms with
+  | [] => Ok v
+  | (id, arg, val) :: r => v1 <- run_mut k id arg val v ;; run_muts k r v1
+  end.
+Lemma run_muts_length k ms : forall v v', run_muts k ms v = Ok v' -> length v' = length v.
+Proof.
+  induction ms as [|[[id arg] val] r IH]; intros v v' H; cbn [run_muts] in H.
+  - inversion H; reflexivity.
+  - inv_bind H. apply IH in H. apply run_mut_length in E. congruence.
 Qed.
